@@ -17,10 +17,15 @@ B3  the recorded crossings (B2 orderings, and every Fiber / Roadm / Edfa / Multi
     LatencyLinear, PmdQuadrature, PdlQuadrature against each element's own contribution measured by crossing it ALONE
     from a zero state, ContribFromConfig (a span's latency / PMD^2 follow from ITS OWN length: length / (c / n),
     pmd_coef^2 x length - also for the spans the auto-design cuts out of a long link: CORONET and a 390 km test link),
-    NoMemory, RoadmContribFromConfig (a ROADM's PMD / PDL: the crossed path's impairment profile where it defines the
+    NoMemory, ElementContribFromConfig (a ROADM's PMD / PDL: the crossed path's impairment profile where it defines the
     quantity, else the ROADM-level value, each on its own; the B2 ROADM has profiles defining only one of the two), and
     OrderIndependent over all orderings of an assembly.  Quick-tier LowPower: with Raman on (perturbative) at -60 dBm
-    per channel every spec fibre, as Fiber and as pump-less RamanFiber, loses exactly the emitted budget.
+    per channel every spec fibre, as Fiber and as pump-less RamanFiber, loses exactly the emitted budget; quick-tier
+    MethodsAgree: a strong 24-channel comb through every spec fibre (scalar and per-frequency loss), perturbative
+    against numerical at a 2 m step.  The Raman setting used to judge a recorded run is the one the USER selected for
+    it, not the process-wide parameters found after the design; recorded networks include a RamanFiber sharing its span
+    with a plain Fiber (designed and propagated with Raman off) and C+L multiband amplifiers whose band amplifiers have
+    different PMD / PDL (ElementContribFromConfig per channel).
     Thorough tier only: Raman-on relational histories (LowPower, LumpedOnce, PumpsOnlyAddGain, MethodsAgree) on the
     shipped Raman fibre configurations, judged by the same trace specification.
 """
@@ -291,6 +296,48 @@ def low_power_traces(conf, orders, chk):
     return traces
 
 
+def methods_agree_quick(conf, chk):
+    """MethodsAgree in the quick tier: on the emitted fibres (scalar AND per-frequency loss coefficient) a 24-channel comb of
+    +9 dBm per channel over the whole C band (22.8 dBm in total: strong SRS) loses the same with the perturbative solver
+    (order 2, 50 m) and with the numerical one at a fine 2 m step (fine = 1: judged with the tolerance measured for that
+    step)"""
+    from gnpy.core.info import create_arbitrary_spectral_information
+    from gnpy.core.parameters import SimParams
+    from gnpy.tools.json_io import load_equipments_and_configs, network_from_json
+    eq = load_equipments_and_configs(EX / 'eqpt_config.json', [], [])
+    f = np.linspace(191.3e12, 195.9e12, 24)
+    p = 1e-3 * 10 ** 0.9
+    traces = []
+    worst = 0.0
+    try:
+        for fid in sorted(conf['span']):
+            res = {}
+            for method, step in (('perturbative', 50), ('numerical', 2)):
+                SimParams.set_params({'raman_params': {'flag': True, 'method': method, 'order': 2,
+                                                       'solver_spatial_resolution': step, 'result_spatial_resolution': 10e3},
+                                      'nli_params': {'method': 'gn_model_analytic'}})
+                el = next(iter(network_from_json({'elements': [fiber_json(fid, conf['span'][fid])], 'connections': []}, eq).nodes()))
+                el.ref_pch_in_dbm = 0.0
+                try:
+                    res[method] = attenuation_db(el, create_arbitrary_spectral_information(
+                        frequency=f, pch=p, baud_rate=32e9, slot_width=50e9, tx_osnr=40, tx_power=p, roll_off=0.15))
+                except Exception as ex:                                  # noqa
+                    chk.violation(f'methods|{features(conf["span"][fid])}|{method}|exception|{type(ex).__name__}',
+                                  dict(fibre=fid, exception=traceback.format_exc()[-1200:]))
+            if len(res) < 2:
+                continue
+            chk.case(f'methods|{fid}', nontrivial=True)
+            worst = max(worst, float(np.max(np.abs(res['perturbative'] - res['numerical']))))
+            traces.append({'name': f'methods {fid}',
+                           'ev': [{'k': 'MethodsAgree', 'what': f'Fiber|{features(conf["span"][fid])}', 'pumped': 0, 'fine': 1,
+                                   'ch': [{'a': udb(a), 'b': udb(b)} for a, b in zip(res['perturbative'], res['numerical'])]}]})
+    finally:
+        SimParams.set_params({})
+    chk.cov['methods_agree_quick_worst_deviation_db'] = float(f'{worst:.3g}')
+    chk.cov['methods_agree_quick_tolerance_db'] = 0.012
+    return traces
+
+
 # ----------------------------------------------------------------------------------------------------- B3 shipped
 def long_link_network():
     """a two-ROADM line whose 390 km link is longer than the Span max_length: the auto-design splits it into spans"""
@@ -303,18 +350,60 @@ def long_link_network():
     return eq, net, req
 
 
+def spliced_raman_topology(via_fused):
+    """the shipped Raman example with a plain 40 km fibre spliced in front of the Raman-pumped fibre (directly, or through
+    a Fused): a RamanFiber that shares its span with a plain Fiber"""
+    from gnpy.tools.json_io import load_json
+    topo = load_json(EX / 'raman_edfa_example_network.json')
+    span1 = next(e for e in topo['elements'] if e['uid'] == 'Span1')
+    topo['elements'].append({'uid': 'Span0', 'type': 'Fiber', 'type_variety': 'SSMF',
+                             'params': {'length': 40.0, 'loss_coef': 0.21, 'length_units': 'km', 'att_in': 0,
+                                        'con_in': 0.3, 'con_out': 0.2}, 'metadata': copy.deepcopy(span1['metadata'])})
+    topo['connections'] = [c for c in topo['connections'] if c != {'from_node': 'Site_A', 'to_node': 'Span1'}]
+    if via_fused:
+        topo['elements'].append({'uid': 'Splice0', 'type': 'Fused', 'params': {'loss': 0.3},
+                                 'metadata': copy.deepcopy(span1['metadata'])})
+        topo['connections'] += [{'from_node': 'Site_A', 'to_node': 'Span0'}, {'from_node': 'Span0', 'to_node': 'Splice0'},
+                                {'from_node': 'Splice0', 'to_node': 'Span1'}]
+    else:
+        topo['connections'] += [{'from_node': 'Site_A', 'to_node': 'Span0'}, {'from_node': 'Span0', 'to_node': 'Span1'}]
+    return topo
+
+
+def multiband_library_with_pmd_pdl():
+    """the shipped multiband library with DIFFERENT PMD / PDL for the C-band and the L-band amplifier types"""
+    from gnpy.tools.json_io import load_json
+    doc = load_json(EX / 'eqpt_config_multiband.json')
+    for e in doc['Edfa']:
+        if e.get('type_def') == 'multi_band':
+            continue
+        lband = e.get('f_max', 196.1e12) < 191e12
+        e['pmd'], e['pdl'] = (2e-12, 0.6) if lband else (1e-12, 0.2)
+    return doc
+
+
 def shipped_traces(chk, rng):
-    jobs = list(L.SHIPPED) + [('longLinkSplitByDesign', None, None, (), None)]
+    # (name, topology file, equipment file or document, -, simulation parameters the USER selects, extras)
+    jobs = [j + ({},) for j in L.SHIPPED] + [
+        ('longLinkSplitByDesign', None, None, (), None, {}),
+        # a RamanFiber sharing its span with a plain Fiber, designed and propagated with Raman computation OFF
+        ('fiberSplicedToRamanFiber', None, 'eqpt_config.json', (), None, {'topology_json': spliced_raman_topology(False)}),
+        ('fiberFusedToRamanFiber', None, 'eqpt_config.json', (), None, {'topology_json': spliced_raman_topology(True)}),
+        # C + L propagation through multiband amplifiers whose band amplifiers have different PMD / PDL
+        ('multiband-pmd-pdl-per-band', 'multiband_example_network.json', multiband_library_with_pmd_pdl(), (), None,
+         {'spectrum': 'multiband_spectrum.json'})]
     npaths = 5 if chk.tier == 'quick' else 30
     max_ch = 8 if chk.tier == 'quick' else 16
     traces = []
     counts = {}
-    for name, topo, eqpt, _, sim in jobs:
+    for name, topo, eqpt, _, sim, extra in jobs:
         L.set_sim(sim)
         try:
-            eq, net, req = long_link_network() if topo is None else L.load_designed(topo, eqpt)[:3]
+            eq, net, req = long_link_network() if eqpt is None else L.load_designed(topo, eqpt, **extra)[:3]
             contrib = L.Contributions()
-            ron = L.raman_on()
+            # the Raman setting is the one the USER selected for this run (configuration), not whatever the process-wide
+            # simulation parameters hold after the design
+            ron = sim == 'raman'
             few = 2 if (name == 'coronet' and chk.tier == 'quick') else npaths
             for pname, evs in L.record_paths(eq, req, L.some_paths(net, rng, few)):
                 out = []
@@ -437,7 +526,8 @@ def raman_histories(settings, chk):
                 a = attenuation_db(make(cls_name, conf), comb(nch, 0))
                 sim(fine)
                 b = attenuation_db(make(cls_name, conf), comb(nch, 0))
-                evs.append({'k': 'MethodsAgree', 'what': cls_name, 'pumped': 1 if cls_name == 'RamanFiber' else 0, 'ch': pairs(a, b)})
+                evs.append({'k': 'MethodsAgree', 'what': cls_name, 'pumped': 1 if cls_name == 'RamanFiber' else 0, 'fine': 0,
+                            'ch': pairs(a, b)})
                 key = 'MethodsAgree_pumped' if cls_name == 'RamanFiber' else 'MethodsAgree'
                 dev[key] = max(dev[key], float(np.max(np.abs(a - b))))
             traces.append({'name': f'raman {cname}', 'ev': evs})
@@ -494,7 +584,7 @@ def run(chk):
     b2_traces = replay_orders(conf[0], orders, chk)
     lap('b2_replay')
     mem = fibre_memory_traces(conf[0], chk)
-    b2_traces = b2_traces + mem + low_power_traces(conf[0], orders, chk)
+    b2_traces = b2_traces + mem + low_power_traces(conf[0], orders, chk) + methods_agree_quick(conf[0], chk)
     report(chk, b2_traces, L.judge(chk, b2_traces, 'c05-trace-b2'), 'B2trace')
     lap('b2_judge')
     # ---- B3
@@ -522,7 +612,6 @@ def run(chk):
     chk.assume('ContribFromConfig: group index of the fibre model (FiberParams._n1 = 1.468) and c = 299792458 m/s convert a '
                'configured length into latency; CD of a span is not restated from configuration (frequency-dependent '
                'beta2 / beta3 model), it is only required to accumulate linearly and position-independently')
-    chk.assume('RamanFiber elements are only crossed with Raman computation on (gnpy requires sim-params for them)')
     chk.assume('per-frequency loss coefficient: the configured table is interpolated linearly at the channel frequency by '
                'the harness for B3 (numpy.interp) and by the specification itself for B2 (exact on the model grid)')
     chk.assume('Raman clauses are sampled (2 shipped configurations x the emitted settings grid, 12 channels), solver '
